@@ -182,7 +182,13 @@ func (r *R) Sim(cfg simrt.Config, root func()) simrt.Result {
 // SchedConfig draws the scheduling policy of a run from the plan tape.
 func (r *R) SchedConfig() simrt.Config {
 	sw := []int{0, 10, 100, 300, 500, 1000}[r.P.Choose(6)]
-	return simrt.Config{SwitchPermille: sw, MaxSteps: 150000}
+	cfg := simrt.Config{SwitchPermille: sw, MaxSteps: 150000}
+	// 1 run in 3: one writer loses the CPU right after one of its network writes (see simrt.Config.DemoteWrite)
+	if r.P.Choose(3) == 2 {
+		cfg.DemoteWrite = 1 + r.P.Choose(40)
+		cfg.DemoteLen = []int{60, 400, 3000}[r.P.Choose(3)]
+	}
+	return cfg
 }
 
 // --- generic oracles over a simrt.Result ---------------------------------------------------
